@@ -54,9 +54,11 @@ def generate(rng, run, tier):
     style = rng.choice(['quoted', 'quoted', 'postponed', 'partial'])
     names = ['Early', 'Later']
     if placement == 'method':
-        names += ['Outer', 'Outer']
+        names += ['Outer', 'Outer', 'Tag']
     elif placement == 'nested_method':
-        names += ['Outer', 'Outer.Inner', 'Inner']
+        # Tag: an alias bound in the body of the class defining the method only; Key: bound in that body (to Early) and,
+        # differently (to int), in the body of the enclosing decorated class, which Python's scoping does not consult
+        names += ['Outer', 'Outer.Inner', 'Inner', 'Tag', 'Key']
     elif placement == 'closure':
         names += ['Local', 'Local']
     shape = rng.choice(SHAPES)
@@ -101,7 +103,7 @@ def generate(rng, run, tier):
 def _partial(text):
     """Quote only the names inside an otherwise evaluated hint expression: list['Later'], Union['Later', int]."""
     import re
-    return re.sub(r"\b(Outer\.Inner|Early|Later|Outer|Inner|Local)\b", lambda m: repr(m.group(1)), text)
+    return re.sub(r"\b(Outer\.Inner|Early|Later|Outer|Inner|Local|Tag|Key)\b", lambda m: repr(m.group(1)), text)
 
 
 def _source(case):
@@ -117,10 +119,11 @@ def _source(case):
     if p == 'module':
         body = ['@beartype', 'def f(a: %s) -> %s:' % (ann, ann), '    return a']
     elif p == 'method':
-        body = ['@beartype', 'class Outer:', '    def m(self, a: %s) -> %s:' % (ann, ann), '        return a',
+        body = ['@beartype', 'class Outer:', '    Tag = Early', '    def m(self, a: %s) -> %s:' % (ann, ann), '        return a',
                 'f = Outer().m']
     elif p == 'nested_method':
-        body = ['@beartype', 'class Outer:', '    class Inner:', '        def m(self, a: %s) -> %s:' % (ann, ann),
+        body = ['@beartype', 'class Outer:', '    Key = int', '    class Inner:', '        Tag = Early', '        Key = Early',
+                '        def m(self, a: %s) -> %s:' % (ann, ann),
                 '            return a', 'f = Outer.Inner().m', 'Inner = None']
     else:
         body = ['def factory():', '    @beartype', '    def clo(a: %s) -> %s:' % (ann, ann), '        return a',
@@ -131,6 +134,8 @@ def _source(case):
 def _resolve(name, mod):
     if name == 'Local':
         return mod.__dict__.get('Local_')
+    if name in ('Tag', 'Key'):
+        return mod.__dict__.get('Early')
     if name == 'Outer.Inner' or name == 'Inner':
         o = mod.__dict__.get('Outer')
         return getattr(o, 'Inner', None) if o is not None else None
@@ -300,6 +305,7 @@ def _run_scope(case, modname, probes):
             if viol is None:
                 ns = dict(mod.__dict__)
                 ns['Local'] = mod.__dict__.get('Local_')
+                ns['Tag'] = ns['Key'] = mod.__dict__.get('Early')
                 o = mod.__dict__.get('Outer')
                 if o is not None and hasattr(o, 'Inner'):
                     ns['Inner'] = o.Inner
